@@ -27,6 +27,13 @@ def main():
         env = build.asan_env()
         env["PYTHONHASHSEED"] = "0"
         os.execve(sys.executable, [sys.executable] + sys.argv, env)
+    shim = getattr(mod, "PRELOAD", None)
+    if shim and os.path.basename(shim)[:-2] not in os.environ.get("LD_PRELOAD", ""):
+        so = build.build_shim(shim)
+        env = dict(os.environ)
+        env["LD_PRELOAD"] = so
+        env["PYTHONHASHSEED"] = "0"
+        os.execve(sys.executable, [sys.executable] + sys.argv, env)
     ctx = common.Ctx(pid, a.tier, seed)
     os.chdir(os.environ.get("VERIF_TMP", "/var/tmp"))
     if a.replay:
